@@ -5,16 +5,21 @@ import vkit
 ALL_ACTS = {"add", "del", "rmt", "act", "prio", "loop", "feed", "drain", "raise", "adv", "later"}
 
 
-def consts(pool, acts, D, *, nprio=3, durs=(0, 1, 2), maxiter=4, maxcb=0, limitprio=1, scriptops=(), prealloc=True, nx=0, nd=0):
-    return {"Pool": set(pool), "NPrio": nprio, "Durs": set(durs), "Acts": set(acts), "D": D,
+def consts(pool, acts, D, *, nprio=3, durs=(0, 1, 2), maxiter=4, maxcb=0, limitprio=1, scriptops=(), prealloc=True, nx=0, nd=0, maxintv=-1):
+    acts = set(acts) | ({"intv%d" % maxintv} if maxintv >= 0 else set())   # MaxIntv is selected through Acts (see the spec)
+    return {"Pool": set(pool), "NPrio": nprio, "Durs": set(durs), "Acts": acts, "D": D,
             "MaxIter": maxiter, "MaxCb": maxcb, "LimitPrio": limitprio, "ScriptOps": set(scriptops),
             "PreAlloc": prealloc, "NX": nx, "ND": nd}
+
+
+def maxintv_of(c):
+    return next((int(a[4:]) for a in c["Acts"] if a.startswith("intv")), -1)
 
 
 def drv_cfg(c, tick_ns=1000, backend="epoll", **kw):
     d = {"tick_ns": tick_ns, "nprio": c["NPrio"], "maxiter": c["MaxIter"], "maxcb": c["MaxCb"],
          "limitprio": c["LimitPrio"], "backend": backend,
-         "prealloc": sorted(c["Pool"]) if c["PreAlloc"] else [], "nx": c.get("NX", 0), "nd": c.get("ND", 0)}
+         "prealloc": sorted(c["Pool"]) if c["PreAlloc"] else [], "nx": c.get("NX", 0), "nd": c.get("ND", 0), "maxintv": maxintv_of(c)}
     d.update(kw)
     return d
 
